@@ -206,6 +206,32 @@ PROPS["C18"] = {
     "level_note": "A hang is declared after 20 s for one statement. Parse-level crashes are C09's business (counted here as parse-error).",
 }
 
+PROPS["C15"] = {
+    "kind": "storage", "test": "TestVerifC15", "level": "exploration",
+    "tiers": tiers(1500, 4, 12000, 16),
+    "rule": "operation sequences over LRUCache.set (clean or already-dirty page, same or fresh page object) / get / markDirty / markClean, run against the real cache and a list-based reference model written from the property's text; after EVERY step the boolean of set, "
+            "(page identity, found) of get, resident key set, recency order (read from the internal list), index/list consistency and size <= capacity are compared. (a) bounded-exhaustive: all sequences of depth 5 (thorough: 6) over capacities 1-3 with capacity+1 keys "
+            "(alphabet 10-20 operations, split over the shards by first operation); (b) rapid: sequences of 20-400 operations at capacities 1-6 and 200-2000 operations at capacities 5-64. "
+            "Non-trivial: the sequence performed an eviction that had to skip a dirty entry, or an insertion that was refused; distinct by sequence JSON.",
+    "technique": "model-based property testing (rapid) + bounded-exhaustive enumeration of operation sequences against a reference LRU",
+    "level_text": "Exhaustive to depth 5/6 in small scopes, random beyond. Search, not proof.",
+    "level_note": "Trusted: the reference model in the test (list with dirty flags). In-package: reads LRUCache.list and .cache directly.",
+    "exhaustive_note": "all operation sequences of depth 5 (quick) / 6 (thorough) for capacities 1..3 over capacity+1 keys",
+}
+
+PROPS["C11"] = {
+    "kind": "storage", "test": "TestVerifC11", "level": "exploration",
+    "tiers": tiers(60, 4, 500, 16, qtimeout=900),
+    "rule": "rapid-generated histories of 10-120 operations through the real RelationService over 1-4 trees sharing one file: CreateTable, Insert batches of 1-40 rows with payloads of 1-390 bytes, Update, MarkDeleted, flushPages, reload (flush + empty cache), "
+            "close/reopen and crash + WAL recovery; after EVERY operation a page-graph walker written from the definition checks the catalog trees and every user tree of the file: keys strictly ascending within and across leaves, every key inside the bounds given by its ancestors' separators, "
+            "separators strictly ascending, all leaves at one depth, no page reachable twice over all trees, no node over capacity and every node encodes to 4096 bytes, left-to-right sibling chain = leaves in tree order = reverse of the right-to-left chain, every live key found by findCell from the root and no tombstoned one, live keys = what the history implies. "
+            "Plus a direct BTree.insert driver: 200 000 ascending keys into the in-memory store (4 levels; shard 0), 3 000 keys on a file store with flush + cold cache between batches (shard 1; thorough: 200 000 on file, shard 2), walker run at growing intervals. "
+            "Non-trivial: a tree of height >= 2 with >= 3 leaves and a reload between two splits of the same tree; distinct by history JSON.",
+    "technique": "stateful property-based testing (rapid) with a structural invariant walker after every step; deterministic large-tree driver",
+    "level_text": "Every reachable tree state of the generated histories is checked against the full shape invariant; deep trees (3-4 levels) are reached by the direct driver. Search, not proof.",
+    "level_note": "Trusted: the walker (in-package, reads node structs). Keys ascend (engine's shared counter / WAL replay); random-order insertion is outside the property.",
+}
+
 HOOK_COMMITS = ["7ca683e"]
 
 NOT_APPLICABLE = {}
